@@ -50,6 +50,11 @@ type c31Fact struct {
 type c31Prover struct {
 	fn      *ssa.Function
 	pc      ssa.Value // the pageCount parameter (nil if the function has none)
+	// generalisation used by C09.R5: base says "this value is bounded by construction";
+	// unlimited says "at this point no bound has to be enforced" (no limit configured)
+	base      func(v ssa.Value) bool
+	unlimited func(f c31Fact) bool
+	split     int
 	inprog  map[string]bool
 	usedA1  bool
 	usedA2  bool
@@ -263,10 +268,16 @@ func (pr *c31Prover) lep(v ssa.Value, pt c31Point) bool {
 		if pr.pc != nil && c31Same(v, pr.pc) {
 			return true
 		}
+		if pr.base != nil && pr.base(v) {
+			return true
+		}
 		if keyOfSelectionSet(v) {
 			return true
 		}
 		for _, f := range pr.facts(pt) {
+			if pr.unlimited != nil && pr.unlimited(f) {
+				return true
+			}
 			switch f.kind {
 			case "LE", "LT":
 				if c31Same(f.a, v) && !c31Same(f.b, v) && pr.lep(f.b, pt) {
@@ -298,8 +309,38 @@ func (pr *c31Prover) lep(v ssa.Value, pt c31Point) bool {
 		case *ssa.ChangeType:
 			return pr.lep(x.X, pt)
 		}
+		// case split over the ways into this block (short-circuit conditions join here)
+		if pt.extra == nil && len(pt.b.Preds) >= 2 && pr.split < 3 && availableAt(v, pt.b) {
+			pr.split++
+			defer func() { pr.split-- }()
+			for _, pred := range pt.b.Preds {
+				var extra *Edge
+				for si, sb := range pred.Succs {
+					if sb == pt.b && len(pred.Succs) == 2 {
+						e := Edge{pred, si}
+						extra = &e
+					}
+				}
+				if !pr.lep(v, c31Point{b: pred, extra: extra}) {
+					return false
+				}
+			}
+			return true
+		}
 		return false
 	})
+}
+
+// availableAt: v is defined before every predecessor of b ends (a parameter, a constant, or an instruction
+// whose block strictly dominates b).
+func availableAt(v ssa.Value, b *ssa.BasicBlock) bool {
+	switch x := v.(type) {
+	case *ssa.Parameter, *ssa.Const, *ssa.FreeVar, *ssa.Global:
+		return true
+	case ssa.Instruction:
+		return x.Block() != b && x.Block().Dominates(b)
+	}
+	return false
 }
 
 // ge1: v ≥ 1 at pt.
